@@ -520,7 +520,10 @@ Definition do_vstatus s j conflict ts' : option state :=
         Some (set_cs (set_st s (upd (st s) j Conflict)) (upd (cs s) j (Some (CVal ts scanned conf VStatusSet owe)))))
       else
         (* an attempt whose repeated lookups of one location disagreed must never be trusted *)
-        guard (Nat.eqb ts ts' && match res s j with Some r => log_consistent (mv_reads (rlog r)) | None => false end) (
+        guard (Nat.eqb ts ts' && match res s j with
+                                 | Some r => log_consistent (mv_reads (rlog r)) &&
+                                             forallb (fun p => has_loc (fst p) scanned) (mv_reads (rlog r))
+                                 | None => false end) (
         Some (set_cs (set_st (set_unconf s (upd (unconf s) j (Nat.max (unconf s j) ts))) (upd (st s) j Unconfirmed))
                      (upd (cs s) j (Some (CVal ts scanned conf VStatusSet owe))))))
   | _ => None
